@@ -14,14 +14,18 @@ if [ -n "$(git -C /repo status --porcelain --untracked-files=no)" ]; then
   echo "refusing to run: /repo has uncommitted changes" >&2; exit 2
 fi
 patches=("$@")
-[ ${#patches[@]} -eq 0 ] && patches=(selftest/*/*.diff seeded/*/patch.diff)
+[ ${#patches[@]} -eq 0 ] && patches=(selftest/*/*.diff selftest/*/*.sh seeded/*/patch.diff)
 fail=0
 printf "%-44s %-8s %-8s %s\n" change expected got detail
 for p in "${patches[@]}"; do
   [ -f "$p" ] || continue
-  name=$(echo "$p" | sed 's#/patch.diff##; s#\.diff$##')
+  name=$(echo "$p" | sed 's#/patch.diff##; s#\.diff$##; s#\.sh$##')
   case "$p" in */silent/*) want=silent;; *) want=detect;; esac
-  if ! git -C /repo apply "$(realpath "$p")" 2>"$OUT/apply.err"; then
+  if [[ "$p" == *.sh ]]; then
+    if ! (cd /repo && bash "$(realpath "$OLDPWD/$p" 2>/dev/null || realpath "$p")") >"$OUT/apply.err" 2>&1; then
+      printf "%-44s %-8s %-8s %s\n" "$name" $want ERROR "mutator failed: $(tail -1 "$OUT/apply.err")"; fail=1; git -C /repo checkout -- .; continue
+    fi
+  elif ! git -C /repo apply "$(realpath "$p")" 2>"$OUT/apply.err"; then
     printf "%-44s %-8s %-8s %s\n" "$name" $want ERROR "patch does not apply: $(head -1 "$OUT/apply.err")"; fail=1; continue
   fi
   ./run.sh setup >/dev/null 2>"$OUT/build.err"; b=$?
